@@ -86,6 +86,11 @@ def matrix():
         for n in (3, 4, 5, 6):
             yield dict(kind='multicomplex_n_above_2', cls='Derivative', method='multicomplex', n=n, order=2, x=[0.5, 1.0], dim=2,
                        reached_from=dict(n=n, method=m0))
+    # ... and asked of Gradient / Jacobian, which accept n like Derivative does (at construction, or set on a used object)
+    for cls in ('Gradient', 'Jacobian'):
+        for n in (3, 4, 5, 6):
+            for via in ('constructor', 'setter'):
+                yield dict(kind='multicomplex_n_above_2', cls=cls, method='multicomplex', n=n, order=2, x=[0.5, 1.0], dim=2, via=via)
     # 4. fewer steps than the rule needs
     for method in ('central', 'forward', 'backward', 'complex'):
         for n in (1, 2, 3, 4):
@@ -267,6 +272,17 @@ def run_case(case, ctx):
         ok = expect_value_error(ctx, case, lambda: nd.Derivative(f, method=case['method'], n=case['n'],
                                                                  order=case['order'])(x),
                                 method=case['method'], mode=mode)
+    elif kind == 'multicomplex_n_above_2' and case.get('cls') in ('Gradient', 'Jacobian'):
+        fmv = (lambda t: np.exp(t[0]) * t[1]) if case['cls'] == 'Gradient' else (lambda t: np.array([np.exp(t[0]) * t[1], t[0] + t[1]]))
+
+        def mv():
+            if case['via'] == 'constructor':
+                return getattr(nd, case['cls'])(fmv, method='multicomplex', n=case['n'], order=case['order'])(np.array(case['x']))
+            o = getattr(nd, case['cls'])(fmv, method='multicomplex', order=case['order'])
+            o(np.array(case['x']))
+            o.n = case['n']
+            return o(np.array(case['x']))
+        ok = expect_value_error(ctx, case, mv, n=case['n'], cls=case['cls'], via=case['via'])
     elif kind == 'multicomplex_n_above_2' and case.get('reached_from'):
         r0 = case['reached_from']
 
